@@ -226,8 +226,12 @@ func c09Judge(c c09Case, emit func(desc string)) string {
 		}
 	}
 	// reset payloads: on start, on ResetAll and on reconnect
-	if len(o.resets) != 3 {
-		emit(fmt.Sprintf("%d system.reset events for start + ResetAll + reconnect, want 3", len(o.resets)))
+	wantResets := 3
+	if res.VerifMissing["handleReconnect"] {
+		wantResets = 2 // this tree has no handleReconnect method to drive: start + ResetAll only
+	}
+	if len(o.resets) != wantResets {
+		emit(fmt.Sprintf("%d system.reset events for start + ResetAll + reconnect, want %d", len(o.resets), wantResets))
 	}
 	for _, d := range o.resets {
 		var ev struct {
